@@ -153,3 +153,33 @@ pub fn audit_free_list_and_ownership(pages: &Pages, owners: &mut BTreeMap<u64, V
     }
     None
 }
+
+/// Whole-database audit at a quiescent point: every tree of the catalog is walked, the free list
+/// is walked, and every page 1..total_pages must have exactly one owner. Returns also
+/// (free pages, total pages) for the reuse accounting.
+pub fn audit_database(db: &axmosdb::Database) -> Result<(u64, u64), (String, String)> {
+    let roots = axmosdb::verif::tree::catalog_roots(db).map_err(|e| ("catalog_unreadable".to_string(), e))?;
+    let pages = Pages::for_database(db);
+    let z = pages.page_zero();
+    let mut owners: BTreeMap<u64, Vec<Owner>> = BTreeMap::new();
+    let mut seen_roots = BTreeSet::new();
+    for (_oid, root, name) in &roots {
+        if !seen_roots.insert(*root) {
+            return Err(("two_relations_share_a_root".into(), format!("root page {root} ({name})")));
+        }
+        let (leaves, _) = walk_tree(&pages, *root, &mut owners, z.total_pages).map_err(|(c, d)| (c, format!("{name}: {d}")))?;
+        for (i, id) in leaves.iter().enumerate() {
+            let p = pages.btree_page(*id).map_err(|e| ("page_unreadable".to_string(), format!("leaf {id}: {e}")))?;
+            let want_prev = if i == 0 { None } else { Some(leaves[i - 1]) };
+            let want_next = leaves.get(i + 1).copied();
+            if p.previous_sibling != want_prev || p.next_sibling != want_next {
+                return Err(("sibling_links_wrong".into(), format!("{name}: leaf {id} has prev {:?} next {:?}, in-order neighbours {:?}/{:?}", p.previous_sibling, p.next_sibling, want_prev, want_next)));
+            }
+        }
+    }
+    if let Some(e) = audit_free_list_and_ownership(&pages, &mut owners) {
+        return Err(e);
+    }
+    let free = owners.values().filter(|v| v.contains(&Owner::Free)).count() as u64;
+    Ok((free, z.total_pages))
+}
